@@ -343,7 +343,7 @@ PROPS["C11"] = {
 }
 
 PROPS["C14"] = {
-  "units": ["iface", "route", "egress", "batch", "anon", "routerrecv", "flags", "dealerq", "dealertimeo"],
+  "units": ["iface", "route", "egress", "batch", "anon", "routerrecv", "flags", "dealerq", "dealertimeo", "subfilter"],
   "kani_quick": [], "kani_thorough": [],
   "claim": "Error mapping only, proved on the verbatim async functions of the session-backed connection interface (ScaConnectionIface): with SNDTIMEO = 0 a full pipe yields would-block at once and the batch is handed back unchanged; "
            "with SNDTIMEO = -1 send_multipart_owned never answers would-block or timeout (untimed wait); errors are only would-block / timeout / connection-closed; try_send_multipart_owned_sync and try_route_sync hand a refused batch back intact; "
@@ -401,16 +401,19 @@ PROPS["C09"] = {
 }
 
 PROPS["C12"] = {
-  "units": ["trie"],
+  "units": ["trie", "subfilter"],
   "kani_quick": [], "kani_thorough": [],
   "claim": "Matcher semantics only, proved for every topic, every subscription set and every history of subscribe/unsubscribe calls (representation invariant of the abstract view) on the verbatim SubscriptionTrie::{matches, subscribe, unsubscribe}: "
            "against the view cnt(p) = number of active subscriptions to exactly the byte string p, matches(t) is true iff some p with cnt(p) > 0 is a byte-prefix of t (the empty subscription is the prefix of length 0); "
            "subscribe(t) adds one to exactly cnt(t); unsubscribe(t) removes one iff cnt(t) > 0 (and reports whether that was the last one), and an unsubscribe of something never subscribed changes nothing "
-           "(so a topic subscribed N times stays active until unsubscribed N times); no other topic's count is touched by either.",
+           "(so a topic subscribed N times stays active until unsubscribed N times); no other topic's count is touched by either. "
+           "Filter placement (unit subfilter: the FilteredAnonymous arms of PipeMessageSender::{send, try_send_sync, try_send_batch}, regions): a message is enqueued for the application iff the matcher accepts the payload of its FIRST frame "
+           "(multipart: first frame only; no frame / no payload = empty topic); on the batched path exactly the matching messages of the consumed prefix are enqueued, in order, the rest of the caller's queue stays in order "
+           "(a message refused by back-pressure goes back to the FRONT), nothing is duplicated; the slot's reservation and queued counters grow by exactly the number of messages enqueued.",
   "level_note": "Sequential semantics: each call is verified as if it ran alone. The trie cells are Arc<RwLock<TrieNode>> with an AtomicUsize count; a node handle is identified by its path and the operations on a handle "
                 "(read guard: count.load / children.get; write guard: children.entry(b).or_insert_with; count.fetch_add / fetch_sub, wrapping) enter as stand-ins whose contracts are the HashMap / atomic semantics over the abstract view. "
                 "Not covered: interleavings of matches with subscribe/unsubscribe on other threads (unsubscribe below zero wraps the counter to usize::MAX for an instant before restoring it: a concurrent matches can see it), "
-                "publication order, duplicates, and the publisher never blocking on a slow subscriber (Distributor fan-out): schedule properties. get_all_topics (recursive, iterator adapters) is not under contract.",
+                "publication order across tasks, and the publisher never blocking on a slow subscriber (Distributor fan-out): schedule properties. In unit subfilter the subscription set is fixed during one call, the matcher's verdict is an uninterpreted function, and the iterator pre-scan / frame sum of the batched path enter as declared stand-ins. get_all_topics (recursive, iterator adapters) is not under contract.",
   "technique": "contract-based deductive verification (Verus on extracted real functions; abstract prefix-count view of the trie, loop invariants over the cursor path, prefix-closure lemmas)",
   "trusted_base": ["units/trie.py glue: NodeRef / NodeGuard / CountCell / ChildMap stand-ins for Arc<RwLock<TrieNode>>, its guards, AtomicUsize and HashMap<u8, _> (contracts = their std semantics over the view)",
                    "prelude/core.rs, vstd Map/Set/Seq"],
